@@ -6,7 +6,7 @@
 From Coq Require Import List Bool Lia Arith ZArith.
 From Emmet Require Import lib.Base model.MarkupTokenizer model.MarkupParser model.MarkupConvert model.MarkupResolve
      model.OutStream model.FormatHtml model.FormatIndent model.MarkupExpand
-     proofs.SafeConvert proofs.SafeResolve proofs.SafeExpand proofs.SafeBridge proofs.SafeBridgeTok.
+     proofs.SafeConvert proofs.SafeResolve proofs.SafeExpand proofs.SafeBridge proofs.SafeBridgeTok proofs.BemProofs.
 Import ListNotations.
 
 (* the link: for ALL strings, whatever the parser builds from the tokenizer's output is stringifiable *)
@@ -133,6 +133,8 @@ Proof.
   apply snip_bind; [|intros; exact I].
   apply snip_bind.
   { eapply safe_to_snip; [left; reflexivity|]. apply parse_abbr_safe_all. }
-  intros tree. apply snip_bind; [|intros; exact I].
-  eapply snip_mono; [|apply resolve_safe_general]. apply incl_tl, incl_refl.
+  intros tree. apply snip_bind.
+  { eapply snip_mono; [|apply resolve_safe_general]. apply incl_tl, incl_refl. }
+  (* the transform pass (BEM addon included) is total *)
+  intros resolved. destruct (transform_list_ok (xc_m x) resolved) as [t Et]. rewrite Et. exact I.
 Qed.
